@@ -25,7 +25,8 @@ class Prop(BaseProp):
     shard = 150
     rule = ("Ser: single-element scripts for every element length 0..521 (thorough: all; quick: all boundaries and every 7th), "
             "every opcode byte 0..255, random multi-element scripts, out-of-range opcodes; Parse: every proper prefix of valid "
-            "serialisations, random byte strings, hand-written truncated pushes; Varint: boundaries 0xfc/0xfd/0xffff/0x10000/"
+            "serialisations, random byte strings, hand-written truncated pushes, declared lengths off by -3..+3; Reser: legal non-minimal encodings and "
+            "valid serialisations parsed, the parsed object serialised again and once more after an opcode was appended to it; Varint: boundaries 0xfc/0xfd/0xffff/0x10000/"
             "0xffffffff/2^32/2^64 +-1, negatives, random; ReadV: truncated varints. Non-trivial = distinct (input, output).")
 
     def gen_cases(self, rng, tier):
@@ -98,6 +99,15 @@ class Prop(BaseProp):
             body = bytes(rng.randrange(256) for _ in range(n))
             l = rng.choice([n, n, n, max(0, n - 1), n + 1, rng.randrange(0, 20)])
             cases.append({"kind": "Parse", "inp": (bytes([l]) + body).hex(), "pp": False})
+        # legal but non-minimal encodings, parsed, then the parsed object serialised again (must come out in the standard minimal form)
+        for h in ["034c01aa", "044d0100aa", "024c00", "034d0000", "06" + "4c01aa" + "4c01bb", "0451" + "4c01cc", "4f4d4c00" + "aa" * 76, "4e4c4c" + "bb" * 76,
+                  "fd0c024d0902" + "cc" * 521, "4c4b" + "dd" * 75, "024c01", "0100", "00"]:
+            cases.append({"kind": "Reser", "inp": h})
+        for cmds in valid[:25]:
+            try:
+                cases.append({"kind": "Reser", "inp": Script(to_py(cmds)).serialize().hex()})
+            except Exception:
+                pass
         # varints
         vs = set()
         for b in (0, 0xfc, 0xfd, 0xfe, 0xff, 0x100, 0xffff, 0x10000, 0xffffffff, 2 ** 32, 2 ** 63, 2 ** 64 - 1, 2 ** 64, 2 ** 64 + 1, 2 ** 70):
@@ -139,6 +149,23 @@ class Prop(BaseProp):
                 return {"r": [from_py(sc.cmds), s.tell()], "err": False}
             except Exception:
                 return {"r": None, "err": True}
+        if k == "Reser":
+            s = BytesIO(bytes.fromhex(case["inp"]))
+            try:
+                sc = Script.parse(s)
+            except Exception:
+                return {"cmds": None, "again": None, "after": None, "err": True}
+            cm = from_py(sc.cmds)
+            try:
+                again = sc.serialize().hex()
+            except Exception:
+                again = None
+            try:
+                sc.cmds.append(81)
+                after = sc.serialize().hex()
+            except Exception:
+                after = None
+            return {"cmds": cm, "again": again, "after": after, "err": False}
         if k == "Varint":
             try:
                 e = encode_varint(case["i"])
@@ -167,6 +194,8 @@ class Prop(BaseProp):
         if k == "Parse":
             return '(Parse "%s" %s %s)' % (case["inp"], "true" if case["pp"] else "false",
                                            cres(obs["r"], lambda r: "(%s, %d)" % (ecmds(r[0]), r[1])))
+        if k == "Reser":
+            return '(Reser "%s" %s %s %s)' % (case["inp"], cres(obs["cmds"], ecmds), cres(obs["again"], q), cres(obs["after"], q))
         if k == "Varint":
             return "(Varint (%d) %s %s)" % (case["i"], cres(obs["e"], q), cres(obs["r"], lambda r: "(%d, %d)" % (r[0], r[1])))
         return '(ReadV "%s" %s)' % (case["inp"], cres(obs["r"], lambda r: "(%d, %d)" % (r[0], r[1])))
